@@ -4,8 +4,10 @@ package checks
 
 import (
 	"bufio"
+	"context"
 	"fmt"
 	"sync"
+	"sync/atomic"
 	"testing"
 	"time"
 
@@ -362,6 +364,11 @@ type c05Conn struct {
 
 type c05StormScen struct {
 	Conns []c05Conn `json:"conns"`
+	// Terminate: a connection with the client id exists before the storm and ClientService.TerminateSession is called for
+	// it right before the storm starts; ClosedHookUs: the application's OnClosed hook takes this long for that first
+	// connection, so its teardown is still in progress while the new CONNECTs arrive
+	Terminate    bool `json:"terminate,omitempty"`
+	ClosedHookUs int  `json:"closed_hook_us,omitempty"`
 }
 
 func genC05Storm(t *rapid.T) c05StormScen {
@@ -371,15 +378,37 @@ func genC05Storm(t *rapid.T) c05StormScen {
 		s.Conns = append(s.Conns, c05Conn{V: rapid.SampledFrom([]int{3, 4, 5, 5}).Draw(t, "v"), Clean: rapid.Bool().Draw(t, "clean"),
 			DelayUs: rapid.SampledFrom([]int{0, 0, 0, 200, 1000, 5000}).Draw(t, "delay")})
 	}
+	if rapid.IntRange(0, 2).Draw(t, "terminate") == 0 {
+		s.Terminate = true
+		s.ClosedHookUs = rapid.SampledFrom([]int{0, 500, 3000, 20000}).Draw(t, "closed_hook_us")
+	}
 	return s
 }
 
 func runC05Storm(s c05StormScen, c *ev.Case) *ev.Violation {
-	b, err := fixture.Start(fixture.Opts{Config: fixture.BaseConfig()})
+	var slowClose atomic.Bool
+	hooks := &server.Hooks{OnClosed: func(ctx context.Context, client server.Client, err error) {
+		if s.ClosedHookUs > 0 && slowClose.CompareAndSwap(true, false) {
+			time.Sleep(time.Duration(s.ClosedHookUs) * time.Microsecond)
+		}
+	}}
+	b, err := fixture.Start(fixture.Opts{Config: fixture.BaseConfig(), Hooks: hooks})
 	if err != nil {
 		return harnessErr("start broker: %v", err)
 	}
 	defer b.Stop()
+	var first *fixture.Client
+	if s.Terminate {
+		cl, ack, err := b.Connect(fixture.ConnectOpts{ID: "same", V: mw.V5, CleanStart: true, AutoAck: true, Props: &mw.Props{SessionExpiry: u32p(100)}})
+		if err != nil || ack.ReasonCode != 0 {
+			return harnessErr("first connection: %v %v", ack, err)
+		}
+		first = cl
+		defer first.Kill()
+		slowClose.Store(true)
+		b.Srv.ClientService().TerminateSession("same")
+		c.Label("terminate_session_then_reconnect_storm")
+	}
 	type res struct {
 		cl  *fixture.Client
 		ack *mw.Packet
@@ -497,6 +526,9 @@ func runC05Storm(s c05StormScen, c *ev.Case) *ev.Violation {
 				return ev.Violf("C05.delivered-to-displaced", "displaced connection %d received %s after the survivor was acknowledged", i, p.P)
 			}
 		}
+	}
+	if first != nil && !first.WaitClosed(5*time.Second) {
+		return ev.Violf("C05.displaced-open", "the connection whose session was ended by TerminateSession is still open 5 s later")
 	}
 	if len(out) >= 3 {
 		c.Label("storm_3plus")
